@@ -9,6 +9,8 @@ package main
 import (
 	"bytes"
 	"fmt"
+	"sort"
+	"strconv"
 	"strings"
 	"testing/fstest"
 
@@ -20,6 +22,7 @@ func init() { checks["C16"] = runC16 }
 type c16Decl struct {
 	text      string
 	hoistable bool
+	pkgs      []string // the packages this declaration uses: each file imports what its declarations use
 }
 
 func c16Package(r *RNG) []c16Decl {
@@ -30,9 +33,9 @@ func c16Package(r *RNG) []c16Decl {
 	nC := r.Intn(3)
 	for i := 0; i < nC; i++ {
 		if i == 0 {
-			ds = append(ds, c16Decl{fmt.Sprintf("const K%d = %d", i, 2+r.Intn(9)), false})
+			ds = append(ds, c16Decl{text: fmt.Sprintf("const K%d = %d", i, 2+r.Intn(9)), hoistable: false})
 		} else {
-			ds = append(ds, c16Decl{fmt.Sprintf("const K%d = K%d + %d", i, i-1, 1+r.Intn(5)), false})
+			ds = append(ds, c16Decl{text: fmt.Sprintf("const K%d = K%d + %d", i, i-1, 1+r.Intn(5)), hoistable: false})
 		}
 	}
 	kref := func() string {
@@ -55,7 +58,7 @@ func c16Package(r *RNG) []c16Decl {
 		for f := 2; f < nFld[i]; f++ {
 			decl += fmt.Sprintf("\tF%d_%d int\n", i, f)
 		}
-		ds = append(ds, c16Decl{decl + "}", true})
+		ds = append(ds, c16Decl{text: decl + "}", hoistable: true})
 		_ = fl
 		for m := 0; m < nMeth[i]; m++ {
 			extra := ""
@@ -72,7 +75,7 @@ func c16Package(r *RNG) []c16Decl {
 			case 1:
 				extra += " + sa(x) + sc(x) + mark2(x)"
 			}
-			ds = append(ds, c16Decl{fmt.Sprintf("func (t *T%d) M%d(x int) int {\n%s\tmark(\"T%d.M%d\", x)\n\treturn t.A*%d + x + helper%d(x)%s\n}", i, m, local, i, m, 2+m, r.Intn(nF), extra), true})
+			ds = append(ds, c16Decl{text: fmt.Sprintf("func (t *T%d) M%d(x int) int {\n%s\tmark(\"T%d.M%d\", x)\n\treturn t.A*%d + x + helper%d(x)%s\n}", i, m, local, i, m, 2+m, r.Intn(nF), extra), hoistable: true})
 		}
 	}
 	for i := 0; i < nF; i++ {
@@ -92,25 +95,30 @@ func c16Package(r *RNG) []c16Decl {
 		case 1:
 			body += " + sa(x) + mark2(x)"
 		}
-		ds = append(ds, c16Decl{fmt.Sprintf("func helper%d(x int) int {\n\tif x < 0 {\n\t\treturn 0\n\t}\n%s\treturn %s\n}", i, local, body), true})
+		ds = append(ds, c16Decl{text: fmt.Sprintf("func helper%d(x int) int {\n\tif x < 0 {\n\t\treturn 0\n\t}\n%s\treturn %s\n}", i, local, body), hoistable: true})
 	}
-	ds = append(ds, c16Decl{"func mark(s string, v int) int {\n\tprintln(s, v)\n\treturn v\n}", true})
+	ds = append(ds, c16Decl{text: "func mark(s string, v int) int {\n\tprintln(s, v)\n\treturn v\n}", hoistable: true})
+	// declarations that use imported packages: the import groups of the files depend on the partition
+	ds = append(ds, c16Decl{text: "func fs1(x int) int {\n\treturn len(fmt.Sprint(x, \"|\"))\n}", hoistable: true, pkgs: []string{"fmt"}})
+	ds = append(ds, c16Decl{text: "func fs2(x int) int {\n\treturn len(strings.Repeat(\"ab\", x%4)) + len(fmt.Sprint(x))\n}", hoistable: true, pkgs: []string{"fmt", "strings"}})
+	ds = append(ds, c16Decl{text: "func fs3(x int) int {\n\treturn len(strings.TrimSpace(\" a \")) + x\n}", hoistable: true, pkgs: []string{"strings"}})
+	ds = append(ds, c16Decl{text: "func fs4(x float64) float64 {\n\treturn math.Floor(x) + float64(len(strconv.Itoa(7)))\n}", hoistable: true, pkgs: []string{"math", "strconv"}})
 	// parameters and locals named like package-level functions (valid Go: the local wins wherever the function is declared)
-	ds = append(ds, c16Decl{"func sa(x int) int {\n\treturn x + 1\n}", true})
-	ds = append(ds, c16Decl{"func mark2(x int) int {\n\treturn x * 3\n}", true})
-	ds = append(ds, c16Decl{"func sb(v int, sa int) int {\n\tsc := sa * 2\n\treturn v*10 + sa + sc\n}", true})
-	ds = append(ds, c16Decl{"func sc(x int) int {\n\treturn x + 100\n}", true})
+	ds = append(ds, c16Decl{text: "func sa(x int) int {\n\treturn x + 1\n}", hoistable: true})
+	ds = append(ds, c16Decl{text: "func mark2(x int) int {\n\treturn x * 3\n}", hoistable: true})
+	ds = append(ds, c16Decl{text: "func sb(v int, sa int) int {\n\tsc := sa * 2\n\treturn v*10 + sa + sc\n}", hoistable: true})
+	ds = append(ds, c16Decl{text: "func sc(x int) int {\n\treturn x + 100\n}", hoistable: true})
 	sh1, sh2 := r.Intn(nF), r.Intn(nF)
-	ds = append(ds, c16Decl{fmt.Sprintf("func lim(v int, helper%d int) int {\n\tmark := v + helper%d\n\thelper%d := mark * 2\n\treturn helper%d + mark\n}", sh1, sh1, sh2, sh2), true})
+	ds = append(ds, c16Decl{text: fmt.Sprintf("func lim(v int, helper%d int) int {\n\tmark := v + helper%d\n\thelper%d := mark * 2\n\treturn helper%d + mark\n}", sh1, sh1, sh2, sh2), hoistable: true})
 	for i := 0; i < nV; i++ {
 		e := fmt.Sprintf("helper%d(%d)", r.Intn(nF), r.Intn(4))
 		if i > 0 {
 			e += fmt.Sprintf(" + g%d", i-1)
 		}
-		ds = append(ds, c16Decl{fmt.Sprintf("var g%d = mark(\"g%d\", %s)", i, i, e), false})
+		ds = append(ds, c16Decl{text: fmt.Sprintf("var g%d = mark(\"g%d\", %s)", i, i, e), hoistable: false})
 	}
 	if r.Bool() {
-		ds = append(ds, c16Decl{"func init() {\n\tprintln(\"init\", g0)\n}", false})
+		ds = append(ds, c16Decl{text: "func init() {\n\tprintln(\"init\", g0)\n}", hoistable: false})
 	}
 	main := "func Main() {\n"
 	for i := 0; i < nT; i++ {
@@ -122,8 +130,8 @@ func c16Package(r *RNG) []c16Decl {
 			main += fmt.Sprintf("\tprintln(\"m\", t%d.M%d(%d))\n", i, m, r.Intn(5))
 		}
 	}
-	main += fmt.Sprintf("\tprintln(\"h\", helper0(3), g%d, lim(3, 4), sb(3, 4), sa(1), sc(1))\n}", nV-1)
-	ds = append(ds, c16Decl{main, true})
+	main += fmt.Sprintf("\tprintln(\"h\", helper0(3), g%d, lim(3, 4), sb(3, 4), sa(1), sc(1))\n\tprintln(\"imp\", fs1(7), fs2(5), fs3(1), fs4(2.5))\n}", nV-1)
+	ds = append(ds, c16Decl{text: main, hoistable: true})
 	return ds
 }
 
@@ -165,6 +173,7 @@ var c16Imports = []string{"", "lib/app", "ex.com/app"}
 
 func c16FilesAt(r *RNG, ds []c16Decl, nfiles int, mode int) fstest.MapFS {
 	bodies := make([][]string, nfiles)
+	uses := make([]map[string]bool, nfiles)
 	cur := 0
 	for _, d := range ds {
 		f := r.Intn(nfiles)
@@ -175,10 +184,25 @@ func c16FilesAt(r *RNG, ds []c16Decl, nfiles int, mode int) fstest.MapFS {
 			f = cur
 		}
 		bodies[f] = append(bodies[f], d.text)
+		for _, p := range d.pkgs {
+			if uses[f] == nil {
+				uses[f] = map[string]bool{}
+			}
+			uses[f][p] = true
+		}
 	}
 	fs := fstest.MapFS{}
 	for i, b := range bodies {
-		fs[fmt.Sprintf("%s/f%02d.go", c16Dirs[mode], i)] = &fstest.MapFile{Data: []byte("package app\n\n" + strings.Join(b, "\n\n") + "\n")}
+		imports := ""
+		if len(uses[i]) > 0 {
+			var ps []string
+			for p := range uses[i] {
+				ps = append(ps, "\t"+strconv.Quote(p)+"\n")
+			}
+			sort.Strings(ps)
+			imports = "import (\n" + strings.Join(ps, "") + ")\n\n"
+		}
+		fs[fmt.Sprintf("%s/f%02d.go", c16Dirs[mode], i)] = &fstest.MapFile{Data: []byte("package app\n\n" + imports + strings.Join(b, "\n\n") + "\n")}
 	}
 	if mode != 0 {
 		fs["main/main.go"] = &fstest.MapFile{Data: []byte(fmt.Sprintf("package main\n\nimport %q\n\nfunc Main() {\n\tapp.Main()\n}\n", c16Imports[mode]))}
@@ -207,7 +231,32 @@ func c16Run(fs fstest.MapFS) (out string) {
 	return w.String()
 }
 
+// c16BuiltinNamed: the open finding C16 builtin-named-function. A package-level function spelled like one of the
+// builtins that are ordinary globals (println, print, ...) is found by a reference compiled after its declaration,
+// while a reference compiled before it takes the builtin: the two layouts behave differently.
+func (c *Ctx) c16BuiltinNamed() {
+	const id = "builtin-named-function"
+	f, known := c.Findings[id]
+	use := "func Use() int {\n\treturn println(20)\n}"
+	def := "func println(a int) int {\n\treturn a*2 + 2\n}"
+	main := "func Main() {\n\tx := Use()\n\tprint(\"use \")\n\tprint(x)\n\tprint(\"\\n\")\n}"
+	run := func(order ...string) string {
+		return c16Run(fstest.MapFS{"app/a.go": &fstest.MapFile{Data: []byte("package app\n\n" + strings.Join(order, "\n\n") + "\n")}})
+	}
+	a, b := run(def, use, main), run(use, def, main)
+	c.Rep.Oracle["package-permutation"]++
+	if a == b {
+		return // no longer fails
+	}
+	if known {
+		c.Rep.Known = append(c.Rep.Known, id+": "+f.What+" (witness: declared first "+strings.TrimSpace(a)+" / declared after its use "+strings.TrimSpace(strings.SplitN(b, "\n", 2)[0])+")")
+		return
+	}
+	c.Rep.Violate(Violation{Kind: "oracle", Cut: "package-permutation", Input: "func println declared before / after func Use, which calls it", Impl: b, Oracle: a})
+}
+
 func runC16(c *Ctx) error {
+	c.c16BuiltinNamed()
 	c.Rep.Rule = "tsort: random lists of top-level node kinds (all table kinds, statement kinds, unknown kinds), length 0..40, permutation compared with the model; packages: generated packages (struct types, methods, mutually referring functions incl. forward references, chained consts, var initialisers with printed side effects, init) under random permutations of the hoistable declarations x random partitions into 1..4 files, the package loaded directly or imported from a nested / vendored path (import path differs from the package name); distinct = distinct kind list / (package, permutation, partition); non-trivial = list has >= 2 different priorities / package has >= 6 declarations"
 	r := c.RNG
 	kinds := []string{"package", "import", "type", "const", "method", "function", "init", "var", ":=", "=", "call", "for", "if", "switch", "range", "return", "(name)", "+=", "block", "zzz"}
